@@ -18,8 +18,10 @@ coq: coq/Makefile
 drivers: $(DRIVERS)
 
 # extraction: coq/Extract_<id>.v writes ocaml/gen/<id>_model.ml(i) (path given inside the .v file, relative to coq/)
-ocaml/gen/%_model.ml: coq/Extract_%.v coq
+ocaml/gen/%_model.ml: coq/Extract_%.v $(wildcard coq/C*/*.v) $(wildcard coq/Common/*.v)
 	mkdir -p ocaml/gen
+	test -f coq/Makefile || (cd coq && coq_makefile -f _CoqProject -o Makefile)
+	cd coq && timeout $(COQTIMEOUT) $(MAKE) -j16 > /dev/null
 	cd coq && timeout 900 coqc -Q . TLXV Extract_$*.v > /dev/null
 	test -f $@
 
